@@ -39,6 +39,7 @@ def run(prog, run):
     r4(prog, run)
     r5(prog, run)
     r6(prog, run)
+    r7(prog, run)
 
 
 def r1(prog, run, hm):
@@ -487,3 +488,35 @@ def _key_from_metadata(f, nid):
         empties = [f.nodes[f.skip(d)]['k'] == 'construct' and not [a for a in f.nodes[f.skip(d)].get('args', []) if f.nodes[a]['k'] != 'defarg'] for d in ds]
         return bool(ds) and any('QXmppE2eeMetadata::senderKey()' in t for t in texts) and all('QXmppE2eeMetadata::senderKey()' in t or e for t, e in zip(texts, empties))
     return False
+
+
+# --------------------------------------------------------------------------- R7: per-manager state is not shared through function-local statics
+def r7(prog, run):
+    rid = run.rule('C18.R7', 'no member function of the trust managers keeps a value that depends on its object (its storage, its client, a member) in a function-local static: such a '
+                             'value is computed for the first manager and handed to every other one, so a second account stores, fires and discards held-back decisions in the first '
+                             'account\'s storage', floor=20)
+    n = 0
+    for f in prog.fns.values():
+        if f.entry is None or f.is_lambda or (f.record or '') not in ('QXmppAtmManager', 'QXmppTrustManager') or f.raw.get('static'):
+            continue
+        n += 1
+        run.instance(rid)
+        bad = None
+        for i, node in enumerate(f.nodes):
+            if node['k'] != 'decl':
+                continue
+            for d in node.get('decls', []):
+                if not d.get('static') or d.get('init') is None:
+                    continue
+                dep = [j for j in f.walk(d['init']) if f.nodes[j]['k'] in ('this', 'mem') or (f.nodes[j]['k'] == 'call' and f.nodes[j].get('obj') is None
+                                                                                           and (f.sym(f.nodes[j]) or {}).get('record') in ('QXmppAtmManager', 'QXmppTrustManager', 'QXmppClientExtension')
+                                                                                           and not (f.sym(f.nodes[j]) or {}).get('static'))]
+                if dep:
+                    bad = (i, d['name'])
+        if bad:
+            run.violation(rid, '%s#object-state-in-static:%s' % (f.qname, bad[1]), f.loc(bad[0]),
+                          '%s caches %s, which is computed from its own object, in a function-local static: the value of the first manager is used by all later ones' % (f.display()[:50], bad[1]))
+        else:
+            run.ok(rid, f.loc(), 'no object-dependent static', nontrivial=False)
+    if n < 20:
+        raise AnalysisBroken('C18.R7: only %d member functions of the trust managers found' % n)
